@@ -205,23 +205,24 @@ static Ref reference(const unsigned char *s, const unsigned n)
     return r;
 }
 
+static bool onlyDayNotInMonth = false;   // set by c35_known_day_not_in_month only
 static void checkParse(const unsigned char *s, const unsigned n)
 {
     vf_quiet();
     const Ref r = reference(s, n);
     known.set = false;
     bool dayExists = true;
+    if (onlyDayNotInMonth) vf_assume(r.denotes);
     if (r.denotes) {
         bool leap;
         Civil c = r.c; c.year = 100 * r.C + r.yy;
         const int64_t t = civilToTimeDigits(r.C, r.yy, c, leap);
-        // KNOWN-FINDING candidate: a day of month that the month does not have ("Tue, 31 Feb 2021 ...", "29 Feb" of a common year) is
-        // accepted (tmSaneValues() only checks 1..31) and timegm() normalises it into the next month, so Squid returns a time for a
-        // string that denotes none. Excluded.
+        // KNOWN FINDING (known_findings.json, C35-day-not-in-month): a day of month that the month does not have ("Tue, 31 Feb 2021
+        // ...", "29 Feb" of a common year) is accepted (tmSaneValues() only checks 1..31) and timegm() normalises it into the next
+        // month, so Squid returns a time for a string that denotes none. The class is examined by c35_known_day_not_in_month
+        // only; every other entry excludes exactly it.
         dayExists = c.mday <= monthLen[c.mon] + ((c.mon == 1 && leap) ? 1 : 0);
-#ifndef C35_SHOW_FINDINGS      // (spec: defines=["C35_SHOW_FINDINGS"] makes the check report the excluded class as a violation)
-        vf_assume(dayExists);
-#endif
+        vf_assume(dayExists == !onlyDayNotInMonth);
         memset(&known.tm, 0, sizeof(known.tm));
         known.tm.tm_year = (int)(c.year - 1900); known.tm.tm_mon = c.mon; known.tm.tm_mday = (int)c.mday;
         known.tm.tm_hour = (int)c.hour; known.tm.tm_min = (int)c.min; known.tm.tm_sec = (int)c.sec;
@@ -301,5 +302,15 @@ extern "C" void c35_month(void)
     const unsigned n = build(s, f, 4, 0, g);
     const unsigned m0 = f == IMF ? 8 : f == ASCTIME ? 4 : (unsigned)strlen(dayNameFull[4]) + 5;   // where the month name starts
     for (unsigned i = 0; i < 3; ++i) s[m0 + i] = vf_nondet_u8("letter");
+    checkParse(s, n);
+}
+
+// KNOWN FINDING (known_findings.json, C35-day-not-in-month): 'Wed, DD Feb 2021 00:00:00 GMT' with a day February 2021 does not have
+extern "C" void c35_known_day_not_in_month(void)
+{
+    onlyDayNotInMonth = true;
+    unsigned char g[12] = {'0', '0', '2', '0', '2', '1', '0', '0', '0', '0', '0', '0'}, s[48];
+    g[0] = '0' + digit("digit"); g[1] = '0' + digit("digit");
+    const unsigned n = build(s, IMF, 3, 1, g);
     checkParse(s, n);
 }
